@@ -8,13 +8,25 @@
 (* are evaluated on what the real function returned (this decides), and    *)
 (* the transcribed operator is re-evaluated on the recorded arguments and  *)
 (* compared with the recorded result (binding; a difference is DRIFT).     *)
+(*                                                                         *)
+(* End-to-end lines (act = block / end / rerun after a reset of kind e2e): *)
+(* the chain projection recorded by harness/deploy/e2e_test.go after every *)
+(* block in which it changed, while the unmodified deploy.Deploy ran once  *)
+(* per committee member against one in-process chain.  The safety          *)
+(* predicates of DeployProps are evaluated on every projection, the final  *)
+(* predicates on the `end` line of a converged run, convergence on the     *)
+(* `end` line of a run that did not converge (only a run whose projection  *)
+(* stood still for three lifetimes of the shared transaction data while    *)
+(* every member that has to take part was running counts as a violation;   *)
+(* anything else is inconclusive), idempotence on the `rerun` line.  The   *)
+(* order of the stages of Deploy.tla is the binding (drift only).          *)
 (***************************************************************************)
-EXTENDS DeployHelpers, Json, SequencesExt
+EXTENDS DeployHelpers, DeployProps, Json, SequencesExt
 
 CONSTANT TraceFile
 
-VARIABLES l
-tvars == <<l>>
+VARIABLES l, st
+tvars == <<l, st>>
 
 Trace == ndJsonDeserialize(TraceFile)
 
@@ -56,13 +68,119 @@ JudgeHelper(r) ==
          /\ Flag(r.out = Shift(r.sum, r.arg), "DRIFT", "Shift", r, NoTags)
     [] OTHER -> Flag(FALSE, "DRIFT", "UnknownAct", r, NoTags)
 
-TraceInit == l = 0
+
+\* ------------------------------------------------------------------ end-to-end lines
+KSys == 7
+SysNum(sys) == CASE sys = "proxy" -> 1 [] sys = "audit" -> 2 [] sys = "netmap" -> 3 [] sys = "balance" -> 4
+                 [] sys = "reputation" -> 5 [] sys = "neofsid" -> 6 [] sys = "container" -> 7 [] OTHER -> 0
+MajOf(n) == n - ((n - 1) \div 2)
+StagnationBound == 360        \* three lifetimes (120 blocks) of the shared transaction data
+
+ConsOf(o) == {[sys |-> c.sys, dep |-> c.dep, id |-> c.id, upd |-> c.upd, ok |-> c.ok] : c \in ToSet(o.contracts)}
+RecsOf(o) == {[dom |-> d.dom, want |-> d.want, idx |-> d.idx, n |-> d.n, sys |-> d.sys, dep |-> d.dep, hash |-> d.hash, ok |-> d.ok]
+             : d \in ToSet(o.neofs)}
+BootOf(o) == {[idx |-> d.idx, st |-> d.st, n |-> d.n] : d \in ToSet(o.boot)}
+P(r)    == [n |-> r.n, cons |-> ConsOf(r.obs), recs |-> RecsOf(r.obs)]
+\* what has to stand still for a run to count as stagnant (funds and record contents are left out: the shared data is
+\* re-created with a new nonce in every round of a run that does not converge)
+Abs(r)  == <<r.obs.notary, r.obs.alpha, r.obs.notaryX, r.obs.alphaX, ConsOf(r.obs), RecsOf(r.obs), BootOf(r.obs), r.obs.nnsNames,
+             r.obs.cand, r.obs.gas.proxy > 0, r.obs.neo.cmt > 0>>
+
+Reached(r) ==
+  LET o == r.obs IN
+  (IF \E c \in ConsOf(o) : c.id = 1 /\ c.sys = "nns" THEN {<<"nns", 0>>} ELSE {})
+  \cup (IF Len(o.notary) = r.n THEN {<<"ntr", 0>>} ELSE {})
+  \cup (IF Len(o.alpha) = r.n THEN {<<"alp", 0>>} ELSE {})
+  \cup (IF o.gas.proxy > 0 THEN {<<"pgas", 0>>} ELSE {})
+  \cup (IF o.cand = r.n THEN {<<"cand", 0>>} ELSE {})
+  \cup (IF \E i \in 1..Len(o.neo.a) : o.neo.a[i] > 0 THEN {<<"neo", 0>>} ELSE {})
+  \cup {<<"con", SysNum(c.sys)>> : c \in {c \in ConsOf(o) : SysNum(c.sys) > 0}}
+  \cup {<<"con", KSys + 1 + c.dep>> : c \in {c \in ConsOf(o) : c.sys = "alphabet" /\ c.dep >= 0}}
+  \cup {<<"rec", SysNum(d.want)>> : d \in {d \in RecsOf(o) : d.n >= 1 /\ d.idx < 0}}
+  \cup {<<"rec", KSys + 1 + d.idx>> : d \in {d \in RecsOf(o) : d.n >= 1 /\ d.idx >= 0}}
+
+MemSt(r)   == [i \in 0..(r.n - 1) |-> r.mem[i + 1].st]
+LineFair(r, absent) == \A i \in 0..(r.n - 1) : MemSt(r)[i] \in {"run", "done"} \/ (MemSt(r)[i] = "off" /\ i \in absent)
+
+\* final predicates of a converged run
+RolesExactF(r) == /\ ToSet(r.obs.notary) = 0..(r.n - 1) /\ r.obs.notaryX = 0
+                  /\ ToSet(r.obs.alpha) = 0..(r.n - 1) /\ r.obs.alphaX = 0
+NNSIdOne(r)    == \E c \in ConsOf(r.obs) : c.id = 1 /\ c.sys = "nns" /\ c.ok
+AllResolve(r)  == \A d \in RecsOf(r.obs) : d.n = 1 /\ d.sys = d.want /\ d.ok
+AlphabetPerMember(r) ==
+  LET al == {d \in RecsOf(r.obs) : d.idx >= 0} IN
+  Cardinality(al) = r.n /\ Cardinality({d.hash : d \in al}) = r.n
+NeoShares(r) ==
+  LET a == r.obs.neo.a IN
+  /\ \A i, j \in 1..Len(a) : a[i] >= 0 /\ a[i] <= a[j] + 1
+  /\ FoldLeft(LAMBDA x, y : x + y, 0, a) + r.obs.neo.cmt + (IF st.cmtIsVal THEN 0 ELSE r.obs.neo.val) = 100000000
+OwnAlphabet(r) == \A d \in RecsOf(r.obs) : d.idx >= 0 => d.dep = d.idx
+
+\* deviation tags: predicates over one line that explain a failure by a listed finding
+\* NotaryIndexShift: a majority of signature records is published, but fewer than needed among the domains 1..n-2
+\* the leader reads (notary.go:390-448 scans domains 0..n-2 with the keys 0..n-2)
+TagIndexShift(r) ==
+  LET pub  == {b.idx : b \in {b \in BootOf(r.obs) : b.idx >= 1 /\ b.st = "rec"}}
+      need == MajOf(r.n) - 1
+  IN  /\ Len(r.obs.notary) < r.n
+      /\ \E b \in BootOf(r.obs) : b.idx = -1 /\ b.st = "rec"
+      /\ Cardinality(pub) >= need /\ Cardinality(pub \cap (1..(r.n - 2))) < need
+\* WitnessOrder: the leader's designation transaction needs >= 2 remote signatures (appended in map iteration order)
+TagWitnessOrder(r) == MajOf(r.n) - 1 >= 2
+Tags(r) == (IF TagIndexShift(r) THEN {"NotaryIndexShift"} ELSE {}) \cup (IF TagWitnessOrder(r) THEN {"WitnessOrder"} ELSE {})
+
+Zero4(d) == d.deploy = 0 /\ d.update = 0 /\ d.register = 0 /\ d.designate = 0
+
+JudgeE2E(r) ==
+  LET p        == P(r)
+      progress == st.abs # Abs(r) \/ r.fw > 0
+      chg      == IF progress THEN r.h ELSE st.chg
+      fair     == (IF progress THEN TRUE ELSE st.fair) /\ LineFair(r, st.absent)
+      t        == Tags(r)
+  IN  /\ Flag(UniqueContractsP(p, "alphabet"), "C13", "UniqueContracts", r, t)
+      /\ Flag(RecordsFunctionalP(p), "C13", "RecordsFunctional", r, t)
+      /\ Flag(~(st.bad0 = 0 /\ r.mem[1].badDesignate > 0), "C13", "ValidDesignation", r, t)
+      /\ Flag(Closed(Reached(r), KSys, r.n), "DRIFT", "StagesOrdered", r, t)
+      /\ Flag(Len(r.obs.notary) \in {0, r.n} /\ Len(r.obs.alpha) \in {0, r.n} /\ r.obs.notaryX = 0 /\ r.obs.alphaX = 0,
+              "DRIFT", "RolesAllOrNothing", r, t)
+      /\ Flag(\A c \in ConsOf(r.obs) : c.upd = 0 /\ c.ok /\ (c.sys = "alphabet" \/ c.dep = 0), "DRIFT", "FreshContracts", r, t)
+      /\ IF r.act = "end"
+         THEN IF r.done
+              THEN /\ Flag(RolesExactF(r), "C13", "RolesExact", r, t)
+                   /\ Flag(NNSIdOne(r), "C13", "NNSIdOne", r, t)
+                   /\ Flag(AllResolve(r), "C13", "AllResolve", r, t)
+                   /\ Flag(AlphabetPerMember(r), "C13", "AlphabetPerMember", r, t)
+                   /\ Flag(NeoShares(r), "C13", "NeoShares", r, t)
+                   /\ Flag(OwnAlphabet(r), "DRIFT", "OwnAlphabet", r, t)
+              ELSE /\ Flag(r.why # "error", "C13", "RunsSucceed", r, t)
+                   /\ Flag(~(r.why # "error" /\ r.h - chg >= StagnationBound /\ fair /\ Len(r.obs.notary) < r.n
+                             /\ st.absent # {} /\ 0 \notin st.absent /\ 2 * Cardinality(st.absent) < r.n),
+                           "C13", "NotaryMajority", r, t)
+                   /\ Flag(~(r.why # "error" /\ r.h - chg >= StagnationBound /\ fair
+                             /\ (st.absent = {} \/ Len(r.obs.notary) = r.n)),
+                           "C13", "Converges", r, t)
+         ELSE IF r.act = "rerun"
+         THEN /\ Flag(r.done, "C13", "RerunSucceeds", r, t)
+              /\ Flag(\A i \in 1..Len(r.mem) : Zero4(r.mem[i].d4), "C13", "Idempotent", r, t)
+              /\ Flag(st.endabs = Abs(r), "C13", "IdempotentChain", r, t)
+         ELSE TRUE
+      /\ st' = [st EXCEPT !.abs = Abs(r), !.chg = chg, !.fair = fair, !.bad0 = r.mem[1].badDesignate,
+                          !.endabs = IF r.act = "end" THEN Abs(r) ELSE st.endabs]
+
+NoSt == [kind |-> "helpers", cmtIsVal |-> FALSE, abs |-> <<>>, chg |-> 0, fair |-> TRUE, absent |-> {}, bad0 |-> 0, endabs |-> <<>>]
+
+TraceInit == l = 0 /\ st = NoSt
 
 TraceNext ==
   /\ l < Len(Trace)
   /\ l' = l + 1
   /\ LET r == Trace[l + 1]
-     IN  IF r.act = "reset" THEN TRUE ELSE JudgeHelper(r)
+     IN  IF r.act = "reset"
+         THEN st' = IF r.kind = "e2e"
+                    THEN [kind |-> "e2e", cmtIsVal |-> r.cmtIsVal, abs |-> Abs(r), chg |-> 0, fair |-> TRUE,
+                          absent |-> {i \in 0..(r.n - 1) : r.plan[i + 1].afterNotary}, bad0 |-> 0, endabs |-> <<>>]
+                    ELSE NoSt
+         ELSE IF st.kind = "e2e" THEN JudgeE2E(r) ELSE JudgeHelper(r) /\ st' = st
   /\ IF l' = Len(Trace) THEN PrintT("DONE|" \o ToString(l')) ELSE TRUE
 
 TraceSpec == TraceInit /\ [][TraceNext]_tvars
